@@ -128,6 +128,21 @@ def noSplitOfFields (c : String) : List (String × RExp) → Bool
 end
 
 mutual
+/-- a reference-free JSON literal in the resolved-expression language -/
+def jsonR : RExp → Bool
+  | .lit _ => true
+  | .arr xs => jsonRList xs
+  | .map kvs => jsonRFields kvs
+  | _ => false
+def jsonRList : List RExp → Bool
+  | [] => true
+  | e :: es => jsonR e && jsonRList es
+def jsonRFields : List (String × RExp) → Bool
+  | [] => true
+  | (_, e) :: es => jsonR e && jsonRFields es
+end
+
+mutual
 /-- no `merge` over call `c` anywhere inside -/
 def noMergeOf (c : String) : RExp → Bool
   | .lit _ => true
